@@ -10,8 +10,6 @@ import (
 	"reflect"
 	"sort"
 	"strings"
-
-	"golang.org/x/tools/go/ssa"
 )
 
 // Normalisation of extracted helpers (source-to-source, in memory).
@@ -40,15 +38,39 @@ import (
 // something, and its verdict stands only if it is clean.
 
 type inlineSite struct {
-	callee  *ast.FuncDecl
-	calleeF string // file of the callee
-	obj     *types.Func
-	file    string // file of the call
-	call    *ast.CallExpr
-	stmt    ast.Stmt    // the statement that is (or contains, as its init) the call
-	ifStmt  *ast.IfStmt // when the call is the init statement of an if
-	tail    bool
-	encl    *ast.FuncDecl
+	callee   *ast.FuncDecl
+	calleeF  string      // file of the callee
+	obj      *types.Func // nil for a function literal bound to a local
+	name     string
+	sig      *types.Signature
+	lit      *ast.FuncLit // the literal, when the callee is a local closure
+	litDef   ast.Stmt     // the statement that binds it (kept; gets a `_ = v` so that v stays used)
+	litCalls int          // how many calls of the literal there are in all
+	file     string       // file of the call
+	call     *ast.CallExpr
+	host     ast.Stmt // the statement in front of which the expansion goes (the one that evaluates the call)
+	wrap     bool     // host gets a block of its own (if / switch / range: their own variables stay scoped to them)
+	tail     bool     // `return g(..)`: the body's returns stay returns
+	whole    bool     // the call is the whole expression statement
+	deferred bool     // `defer g(..)`: becomes `defer func() { <body> }()`
+	encl     *ast.FuncDecl
+	targs    map[string]string // type parameter name -> type argument text (generic helpers)
+	thread   *threadInfo       // the caller tests one result at once (`if err != nil { return .. }`): returns are threaded
+}
+
+// threadInfo: `x, err := g(..)` followed by `if err != nil { .. }` (form A), or `if x, err := g(..); err != nil { .. }`
+// (form B). A return of the helper whose tested result is known (a literal nil / true / false, a fresh error, a value
+// just found non-nil) goes straight to the branch the caller would take; the others go through the caller's test.
+type threadInfo struct {
+	ifStmt *ast.IfStmt
+	formB  bool
+	formC  bool   // `if g(..) {` / `if !g(..) {`: nothing is assigned
+	k      int    // index of the tested result
+	field  string // when a field of a struct result is tested (`if p.cut {`)
+	cond   string // "neqnil" | "eqnil" | "true" | "false": when the then-branch is taken
+	assign *ast.AssignStmt
+	lhs    []string // text of the left-hand sides
+	decl   []string // `var x T` for the names the assignment newly declares
 }
 
 func funcObjKey(f *types.Func) string {
@@ -65,8 +87,10 @@ func funcObjKey(f *types.Func) string {
 	return f.Name()
 }
 
-// InlineSingleUse performs up to maxRounds rounds of expansion. protected holds funcObjKey names that must stay.
-func InlineSingleUse(repo string, overlay map[string][]byte, first *Prog, protected map[string]bool, maxRounds int) (map[string][]byte, []string) {
+// InlineSingleUse performs up to maxRounds rounds of expansion. Only functions that are not part of the pinned tree
+// (pinnedFuncs) are expanded - the rules read the functions of the pinned tree as they stand - and only into exported
+// functions or functions of the pinned tree, layer by layer: what is folded back is what a later edit cut out.
+func InlineSingleUse(repo string, overlay map[string][]byte, first *Prog, maxRounds int, shared bool) (map[string][]byte, []string) {
 	cur := map[string][]byte{}
 	for k, v := range overlay {
 		cur[k] = v
@@ -84,7 +108,7 @@ func InlineSingleUse(repo string, overlay map[string][]byte, first *Prog, protec
 				return nil, nil
 			}
 		}
-		files, names := inlineRound(p, cur, protected, round)
+		files, names := inlineRound(p, cur, round, shared)
 		if len(names) == 0 {
 			break
 		}
@@ -97,12 +121,33 @@ func InlineSingleUse(repo string, overlay map[string][]byte, first *Prog, protec
 	if len(done) == 0 {
 		return nil, nil
 	}
+	// small structs that only carried several results from a helper to its caller become plain locals (sroa.go)
+	if q, err := Load(repo, cur, "", false); err == nil {
+		if files, split := sroaStructs(q, cur); len(split) > 0 {
+			next := map[string][]byte{}
+			for k, v := range cur {
+				next[k] = v
+			}
+			for k, v := range files {
+				next[k] = v
+			}
+			if _, err := Load(repo, next, "", false); err == nil {
+				cur = next
+				for _, n := range split {
+					done = append(done, "struct local "+n+" split into its fields")
+				}
+			} else if os.Getenv("FCHECK_DEBUG") != "" {
+				fmt.Println("scalar replacement discarded:", err)
+			}
+		}
+	}
 	return cur, done
 }
 
-func inlineRound(p *Prog, overlay map[string][]byte, protected map[string]bool, round int) (map[string][]byte, []string) {
+func inlineRound(p *Prog, overlay map[string][]byte, round int, shared bool) (map[string][]byte, []string) {
 	info := p.Root.TypesInfo
 	fset := p.Fset
+	pinned := pinnedView(p)
 	srcOf := map[string][]byte{}
 	read := func(name string) []byte {
 		if b, ok := srcOf[name]; ok {
@@ -178,12 +223,12 @@ func inlineRound(p *Prog, overlay map[string][]byte, protected map[string]bool, 
 		if o.Exported() || o.Name() == "init" || o.Name() == "main" || o.Name() == "_" {
 			return "exported or special"
 		}
-		if protected[funcObjKey(o)] {
-			return "an anchor of the rules"
+		if pinned[funcObjKey(o)] {
+			return "a function of the pinned tree (or a renamed one): the rules read it as it stands"
 		}
 		sig := o.Type().(*types.Signature)
-		if sig.TypeParams() != nil || sig.RecvTypeParams() != nil || sig.Variadic() {
-			return "generic or variadic"
+		if sig.RecvTypeParams() != nil || sig.Variadic() {
+			return "method of a generic type, or variadic"
 		}
 		if fd.Recv != nil && len(fd.Recv.List) == 1 {
 			if len(fd.Recv.List[0].Names) > 1 {
@@ -200,98 +245,706 @@ func inlineRound(p *Prog, overlay map[string][]byte, protected map[string]bool, 
 					bad = "goto / labelled branch"
 				}
 			case *ast.CallExpr:
-				if id, ok := x.Fun.(*ast.Ident); ok && id.Name == "recover" {
+				if id, ok := x.Fun.(*ast.Ident); ok && id.Name == "recover" && bad == "" {
 					bad = "recover"
+					return true
 				}
 			}
-			return bad == ""
+			return bad == "" || bad == "recover"
 		})
 		return bad
 	}
 
-	var sites []*inlineSite
-	for o, fd := range decls {
-		if len(uses[o]) != 1 {
-			continue
+	isPureCall := func(c *ast.CallExpr) bool {
+		if tv, ok := info.Types[c.Fun]; ok && tv.IsType() {
+			return true // a conversion
 		}
-		if why := eligible(o, fd); why != "" {
-			continue
+		fun := c.Fun
+		if pe, ok := fun.(*ast.ParenExpr); ok {
+			fun = pe.X
 		}
-		id := uses[o][0]
-		if enclosing[id] == fd || enclosing[id] == nil {
-			continue
+		if id, ok := fun.(*ast.Ident); ok {
+			if _, isB := info.Uses[id].(*types.Builtin); isB {
+				switch id.Name {
+				case "len", "cap", "new", "make", "min", "max", "complex", "real", "imag":
+					return true
+				}
+			}
+		}
+		return false
+	}
+	// callsInOrder: the non-pure calls of the given expressions in the order they complete
+	callsInOrder := func(exprs []ast.Node) []*ast.CallExpr {
+		var out []*ast.CallExpr
+		var visit func(n ast.Node)
+		visit = func(n ast.Node) {
+			if n == nil {
+				return
+			}
+			ast.Inspect(n, func(m ast.Node) bool {
+				switch x := m.(type) {
+				case *ast.FuncLit:
+					return false
+				case *ast.CallExpr:
+					visit(x.Fun)
+					for _, a := range x.Args {
+						visit(a)
+					}
+					if !isPureCall(x) {
+						out = append(out, x)
+					}
+					return false
+				}
+				return true
+			})
+		}
+		for _, e := range exprs {
+			if e != nil && !reflect.ValueOf(e).IsNil() {
+				visit(e)
+			}
+		}
+		return out
+	}
+	contains := func(outer, inner ast.Node) bool {
+		return outer != nil && !reflect.ValueOf(outer).IsNil() && inner.Pos() >= outer.Pos() && inner.End() <= outer.End()
+	}
+	inStmtList := func(st ast.Stmt) bool {
+		switch parent[st].(type) {
+		case *ast.BlockStmt, *ast.CaseClause, *ast.CommClause:
+			return true
+		}
+		return false
+	}
+	var makeSite func(o *types.Func, fd *ast.FuncDecl, sig *types.Signature, name string, id *ast.Ident) *inlineSite
+	makeSite = func(o *types.Func, fd *ast.FuncDecl, sig *types.Signature, name string, id *ast.Ident) *inlineSite {
+		if enclosing[id] == nil {
+			return nil
+		}
+		// only into an exported function or a function of the pinned tree
+		if eo, ok := info.Defs[enclosing[id].Name].(*types.Func); !ok || !(eo.Exported() || pinned[funcObjKey(eo)]) {
+			return nil
 		}
 		// the call
 		var fun ast.Expr = id
 		if sel, ok := parent[id].(*ast.SelectorExpr); ok && sel.Sel == id {
 			fun = sel
 		}
+		if pe, ok := parent[fun].(*ast.ParenExpr); ok {
+			fun = pe
+		}
 		call, ok := parent[fun].(*ast.CallExpr)
 		if !ok || call.Fun != fun || call.Ellipsis.IsValid() {
-			continue
+			return nil
 		}
-		sig := o.Type().(*types.Signature)
+		inner := fun
+		if pe, ok := inner.(*ast.ParenExpr); ok {
+			inner = pe.X
+		}
 		if sig.Recv() != nil {
-			sel, isSel := fun.(*ast.SelectorExpr)
+			sel, isSel := inner.(*ast.SelectorExpr)
 			if !isSel {
-				continue
+				return nil
 			}
 			s := info.Selections[sel]
 			if s == nil || s.Kind() != types.MethodVal || len(s.Index()) != 1 {
-				continue
+				return nil
 			}
-		} else if _, isSel := fun.(*ast.SelectorExpr); isSel {
-			continue
+		} else if _, isSel := inner.(*ast.SelectorExpr); isSel {
+			return nil
 		}
-		st := &inlineSite{callee: fd, obj: o, call: call, calleeF: fileOf(fd.Pos()), file: fileOf(call.Pos()), encl: enclosing[id]}
-		switch ps := parent[call].(type) {
+		st := &inlineSite{callee: fd, obj: o, name: name, sig: sig, call: call, calleeF: fileOf(fd.Pos()), file: fileOf(call.Pos()), encl: enclosing[id]}
+		if sig.TypeParams() != nil {
+			inst, ok := info.Instances[id]
+			if !ok || inst.TypeArgs.Len() != sig.TypeParams().Len() {
+				return nil
+			}
+			qual := func(pk *types.Package) string {
+				if pk == p.Types {
+					return ""
+				}
+				return pk.Name()
+			}
+			st.targs = map[string]string{}
+			for i := 0; i < sig.TypeParams().Len(); i++ {
+				st.targs[sig.TypeParams().At(i).Obj().Name()] = types.TypeString(inst.TypeArgs.At(i), qual)
+			}
+		}
+		// the statement that evaluates the call
+		var n ast.Node = call
+		for {
+			up := parent[n]
+			if up == nil {
+				return nil
+			}
+			if be, ok := up.(*ast.BinaryExpr); ok && (be.Op == token.LAND || be.Op == token.LOR) && contains(be.Y, n) {
+				return nil // evaluated conditionally
+			}
+			if _, isStmt := up.(ast.Stmt); isStmt {
+				break
+			}
+			switch up.(type) {
+			case *ast.FuncLit, *ast.CaseClause, *ast.CommClause:
+				return nil
+			}
+			n = up
+		}
+		host := parent[n].(ast.Stmt)
+		if gd, ok := n.(*ast.GenDecl); ok {
+			_ = gd
+		}
+		var evaluated []ast.Node
+		switch h := host.(type) {
 		case *ast.ReturnStmt:
-			if len(ps.Results) != 1 {
-				continue
+			if len(h.Results) == 1 && h.Results[0] == ast.Expr(call) {
+				st.tail = true
+			} else if sig.Results().Len() != 1 {
+				return nil
 			}
-			st.stmt, st.tail = ps, true
+			for _, r := range h.Results {
+				evaluated = append(evaluated, r)
+			}
 		case *ast.AssignStmt:
-			if len(ps.Rhs) != 1 || ps.Rhs[0] != ast.Expr(call) {
-				continue
+			if !(len(h.Rhs) == 1 && h.Rhs[0] == ast.Expr(call)) && sig.Results().Len() != 1 {
+				return nil
 			}
-			st.stmt = ps
+			for _, l := range h.Lhs {
+				evaluated = append(evaluated, l)
+			}
+			for _, r := range h.Rhs {
+				evaluated = append(evaluated, r)
+			}
 		case *ast.ExprStmt:
-			st.stmt = ps
-		case *ast.ValueSpec:
-			gd, ok := parent[ps].(*ast.GenDecl)
-			if !ok || len(gd.Specs) != 1 || len(ps.Values) != 1 || gd.Lparen.IsValid() {
-				continue
+			st.whole = h.X == ast.Expr(call)
+			if !st.whole && sig.Results().Len() != 1 {
+				return nil
 			}
-			ds, ok := parent[gd].(*ast.DeclStmt)
-			if !ok {
-				continue
+			evaluated = append(evaluated, h.X)
+		case *ast.DeclStmt:
+			gd, ok := h.Decl.(*ast.GenDecl)
+			if !ok || gd.Tok != token.VAR || len(gd.Specs) != 1 || gd.Lparen.IsValid() {
+				return nil
 			}
-			st.stmt = ds
-		default:
-			continue
-		}
-		switch up := parent[st.stmt].(type) {
-		case *ast.BlockStmt, *ast.CaseClause, *ast.CommClause:
+			vs := gd.Specs[0].(*ast.ValueSpec)
+			if !(len(vs.Values) == 1 && vs.Values[0] == ast.Expr(call)) && sig.Results().Len() != 1 {
+				return nil
+			}
+			for _, v := range vs.Values {
+				evaluated = append(evaluated, v)
+			}
 		case *ast.IfStmt:
-			if up.Init != st.stmt || st.tail {
-				continue
+			if !contains(h.Cond, call) || sig.Results().Len() != 1 {
+				return nil
 			}
-			// not an `else if`
-			if gp, ok := parent[up].(*ast.IfStmt); ok && gp.Else == ast.Stmt(up) {
-				continue
+			evaluated = append(evaluated, h.Init, h.Cond)
+		case *ast.SwitchStmt:
+			if !contains(h.Tag, call) || sig.Results().Len() != 1 {
+				return nil
 			}
-			switch parent[up].(type) {
-			case *ast.BlockStmt, *ast.CaseClause, *ast.CommClause:
-			default:
-				continue
+			evaluated = append(evaluated, h.Init, h.Tag)
+		case *ast.RangeStmt:
+			if !contains(h.X, call) || sig.Results().Len() != 1 {
+				return nil
 			}
-			st.ifStmt = up
+			evaluated = append(evaluated, h.X)
+		case *ast.DeferStmt:
+			if h.Call != call || sig.Results().Len() != 0 {
+				return nil
+			}
+			st.deferred = true
+		case *ast.IncDecStmt, *ast.SendStmt:
+			if sig.Results().Len() != 1 {
+				return nil
+			}
+			evaluated = append(evaluated, h)
 		default:
+			return nil
+		}
+		// an init statement: the enclosing if / switch / for is the host
+		switch up := parent[host].(type) {
+		case *ast.IfStmt:
+			if up.Init != host || st.tail {
+				return nil
+			}
+			host = up
+		case *ast.SwitchStmt:
+			if up.Init != host || st.tail {
+				return nil
+			}
+			host = up
+		case *ast.TypeSwitchStmt:
+			if up.Init != host || st.tail {
+				return nil
+			}
+			host = up
+		case *ast.ForStmt:
+			if up.Init != host || st.tail {
+				return nil
+			}
+			host = up
+		}
+		switch h := host.(type) {
+		case *ast.IfStmt:
+			if gp, ok := parent[h].(*ast.IfStmt); ok && gp.Else == ast.Stmt(h) {
+				return nil // an `else if`
+			}
+			st.wrap = true
+		case *ast.SwitchStmt, *ast.TypeSwitchStmt, *ast.RangeStmt, *ast.ForStmt:
+			st.wrap = true
+		}
+		if !inStmtList(host) {
+			return nil
+		}
+		// nothing with an effect may be evaluated before the call, its own arguments aside
+		for _, c := range callsInOrder(evaluated) {
+			if c == call {
+				break
+			}
+			if !contains(call, c) {
+				return nil
+			}
+		}
+		st.host = host
+		st.thread = func() *threadInfo {
+			if st.tail {
+				return nil
+			}
+			var as *ast.AssignStmt
+			var ifs *ast.IfStmt
+			formB := false
+			switch h := host.(type) {
+			case *ast.AssignStmt:
+				as = h
+				// the next statement of the list
+				var list []ast.Stmt
+				switch up := parent[h].(type) {
+				case *ast.BlockStmt:
+					list = up.List
+				case *ast.CaseClause:
+					list = up.Body
+				case *ast.CommClause:
+					list = up.Body
+				}
+				for i, x := range list {
+					if x == ast.Stmt(h) && i+1 < len(list) {
+						ifs, _ = list[i+1].(*ast.IfStmt)
+					}
+				}
+				if ifs == nil || ifs.Init != nil {
+					return nil
+				}
+			case *ast.IfStmt:
+				a, ok := h.Init.(*ast.AssignStmt)
+				if !ok {
+					// form C: the call is the condition itself, `if g(..) {` or `if !g(..) {`
+					if h.Init != nil || h.Else != nil || sig.Results().Len() != 1 {
+						return nil
+					}
+					cond := h.Cond
+					for {
+						pe, ok := cond.(*ast.ParenExpr)
+						if !ok {
+							break
+						}
+						cond = pe.X
+					}
+					kind := ""
+					if cond == ast.Expr(call) {
+						kind = "true"
+					} else if ue, ok := cond.(*ast.UnaryExpr); ok && ue.Op == token.NOT {
+						x := ue.X
+						for {
+							pe, ok := x.(*ast.ParenExpr)
+							if !ok {
+								break
+							}
+							x = pe.X
+						}
+						if x == ast.Expr(call) {
+							kind = "false"
+						}
+					}
+					if b, isB := sig.Results().At(0).Type().Underlying().(*types.Basic); kind == "" || !isB || b.Kind() != types.Bool {
+						return nil
+					}
+					ti := &threadInfo{ifStmt: h, formB: true, formC: true, cond: kind, k: 0}
+					n, bad := 0, false
+					ast.Inspect(h.Body, func(m ast.Node) bool {
+						switch x := m.(type) {
+						case ast.Stmt:
+							n++
+							if _, isL := x.(*ast.LabeledStmt); isL {
+								bad = true
+							}
+							if br, isB := x.(*ast.BranchStmt); isB && br.Label != nil {
+								bad = true
+							}
+						case *ast.FuncLit:
+							bad = true
+						}
+						return true
+					})
+					if bad || n > 12 {
+						return nil
+					}
+					return ti
+				}
+				as, ifs, formB = a, h, true
+			default:
+				return nil
+			}
+			if ifs.Else != nil || len(as.Rhs) != 1 || as.Rhs[0] != ast.Expr(call) || (as.Tok != token.DEFINE && as.Tok != token.ASSIGN) {
+				return nil
+			}
+			if len(as.Lhs) != sig.Results().Len() {
+				return nil
+			}
+			// the test
+			cond := ifs.Cond
+			for {
+				pe, ok := cond.(*ast.ParenExpr)
+				if !ok {
+					break
+				}
+				cond = pe.X
+			}
+			var tested *ast.Ident
+			kind := ""
+			field := ""
+			// `v.f` with v a local struct: the field of the result is what is tested
+			fieldOf := func(e ast.Expr) (*ast.Ident, string) {
+				sel, ok := e.(*ast.SelectorExpr)
+				if !ok {
+					return nil, ""
+				}
+				id, ok := sel.X.(*ast.Ident)
+				if !ok {
+					return nil, ""
+				}
+				if sl := info.Selections[sel]; sl == nil || sl.Kind() != types.FieldVal || len(sl.Index()) != 1 {
+					return nil, ""
+				}
+				return id, sel.Sel.Name
+			}
+			switch x := cond.(type) {
+			case *ast.Ident:
+				tested, kind = x, "true"
+			case *ast.SelectorExpr:
+				if id, f := fieldOf(x); id != nil {
+					tested, kind, field = id, "true", f
+				}
+			case *ast.UnaryExpr:
+				if id, ok := x.X.(*ast.Ident); ok && x.Op == token.NOT {
+					tested, kind = id, "false"
+				} else if id, f := fieldOf(x.X); id != nil && x.Op == token.NOT {
+					tested, kind, field = id, "false", f
+				}
+			case *ast.BinaryExpr:
+				id, ok1 := x.X.(*ast.Ident)
+				nl, ok2 := x.Y.(*ast.Ident)
+				if ok1 && ok2 && nl.Name == "nil" && info.Uses[nl] == types.Universe.Lookup("nil") {
+					switch x.Op {
+					case token.NEQ:
+						tested, kind = id, "neqnil"
+					case token.EQL:
+						tested, kind = id, "eqnil"
+					}
+				}
+			}
+			if tested == nil {
+				return nil
+			}
+			tobj := info.Uses[tested]
+			k := -1
+			ti := &threadInfo{ifStmt: ifs, formB: formB, cond: kind, assign: as, field: field}
+			qual := func(pk *types.Package) string {
+				if pk == p.Types {
+					return ""
+				}
+				return pk.Name()
+			}
+			for i, l := range as.Lhs {
+				ti.lhs = append(ti.lhs, text(l.Pos(), l.End()))
+				id, ok := l.(*ast.Ident)
+				if !ok {
+					continue
+				}
+				if d := info.Defs[id]; d != nil {
+					ti.decl = append(ti.decl, "var "+id.Name+" "+types.TypeString(d.Type(), qual)+"; _ = "+id.Name)
+					if d == tobj {
+						k = i
+					}
+				} else if u := info.Uses[id]; u != nil && u == tobj {
+					k = i
+				}
+			}
+			if k < 0 {
+				return nil
+			}
+			ti.k = k
+			// the then-branch is copied to the returns that are known to take it: keep it small and label-free
+			n := 0
+			bad := false
+			ast.Inspect(ifs.Body, func(m ast.Node) bool {
+				switch x := m.(type) {
+				case ast.Stmt:
+					n++
+					if _, isL := x.(*ast.LabeledStmt); isL {
+						bad = true
+					}
+					if br, isB := x.(*ast.BranchStmt); isB && br.Label != nil {
+						bad = true
+					}
+				case *ast.FuncLit:
+					bad = true
+				}
+				return true
+			})
+			if bad || n > 12 {
+				return nil
+			}
+			return ti
+		}()
+		return st
+	}
+	var sites []*inlineSite
+	allInlinable := map[*types.Func]bool{}
+	for o, fd := range decls {
+		if len(uses[o]) == 0 || len(uses[o]) > 24 {
 			continue
 		}
-		sites = append(sites, st)
+		why := eligible(o, fd)
+		usesRecover := why == "recover"
+		if usesRecover && o.Type().(*types.Signature).Results().Len() == 0 {
+			why = "" // may still be expanded where it is deferred directly
+		}
+		if why != "" {
+			if os.Getenv("FCHECK_DEBUG") != "" && !pinned[funcObjKey(o)] && !o.Exported() {
+				fmt.Printf("inlining: %s left alone: %s\n", funcObjKey(o), why)
+			}
+			continue
+		}
+		if len(uses[o]) > 1 {
+			// a shared helper is copied to each of its call sites only in the second attempt, only if a later edit
+			// introduced it (the rules read the shared helpers of the pinned tree as they stand), and only if it is small
+			if !shared || pinned[funcObjKey(o)] {
+				continue
+			}
+			n := 0
+			ast.Inspect(fd.Body, func(m ast.Node) bool {
+				if _, ok := m.(ast.Stmt); ok {
+					n++
+				}
+				return true
+			})
+			if n > 40 {
+				continue
+			}
+		}
+		selfRef := false
+		for _, id := range uses[o] {
+			if enclosing[id] == fd {
+				selfRef = true
+			}
+		}
+		if selfRef {
+			continue
+		}
+		allInlinable[o] = true
+		for _, id := range uses[o] {
+			st := makeSite(o, fd, o.Type().(*types.Signature), funcObjKey(o), id)
+			if st != nil && usesRecover && !st.deferred {
+				st = nil // recover() only works in the deferred function itself
+			}
+			if st == nil {
+				allInlinable[o] = false
+				if os.Getenv("FCHECK_DEBUG") != "" {
+					fmt.Printf("inlining: %s: a use at %s is not an expandable call\n", funcObjKey(o), fset.Position(id.Pos()))
+				}
+				continue
+			}
+			sites = append(sites, st)
+		}
 	}
-	sort.Slice(sites, func(i, j int) bool { return funcObjKey(sites[i].obj) < funcObjKey(sites[j].obj) })
+	// calls of a function literal bound once to a local (`visit := func(..) {..}` ... `visit(x)`; the parameters an
+	// expanded helper received as literals): the literal's body is expanded at the call, its captured names checked
+	{
+		// single definitions of local function-typed variables
+		type def struct {
+			stmt ast.Stmt
+			val  ast.Expr
+			n    int
+		}
+		defs := map[types.Object]*def{}
+		note := func(id *ast.Ident, stmt ast.Stmt, val ast.Expr) {
+			o := info.Defs[id]
+			if o == nil {
+				o = info.Uses[id]
+			}
+			if o == nil {
+				return
+			}
+			d := defs[o]
+			if d == nil {
+				d = &def{}
+				defs[o] = d
+			}
+			d.n++
+			d.stmt, d.val = stmt, val
+		}
+		for _, f := range p.Root.Syntax {
+			ast.Inspect(f, func(n ast.Node) bool {
+				switch x := n.(type) {
+				case *ast.AssignStmt:
+					for i, l := range x.Lhs {
+						if id, ok := l.(*ast.Ident); ok {
+							var v ast.Expr
+							if len(x.Rhs) == len(x.Lhs) {
+								v = x.Rhs[i]
+							}
+							note(id, x, v)
+						}
+					}
+				case *ast.DeclStmt:
+					if gd, ok := x.Decl.(*ast.GenDecl); ok && gd.Tok == token.VAR {
+						for _, sp := range gd.Specs {
+							vs := sp.(*ast.ValueSpec)
+							for i, id := range vs.Names {
+								var v ast.Expr
+								if len(vs.Values) == len(vs.Names) {
+									v = vs.Values[i]
+								}
+								if v != nil || len(vs.Values) == 0 {
+									note(id, x, v)
+								}
+							}
+						}
+					}
+				case *ast.UnaryExpr:
+					if id, ok := x.X.(*ast.Ident); ok && x.Op == token.AND {
+						note(id, nil, nil)
+						note(id, nil, nil) // address taken: never a candidate
+					}
+				case *ast.RangeStmt:
+					for _, e := range []ast.Expr{x.Key, x.Value} {
+						if id, ok := e.(*ast.Ident); ok {
+							note(id, nil, nil)
+							note(id, nil, nil)
+						}
+					}
+				}
+				return true
+			})
+		}
+		resolveLit := func(o types.Object) (*ast.FuncLit, ast.Stmt) {
+			var first ast.Stmt
+			for depth := 0; depth < 3; depth++ {
+				d := defs[o]
+				if d == nil || d.n != 1 || d.val == nil {
+					return nil, nil
+				}
+				if first == nil {
+					first = d.stmt
+				}
+				switch v := d.val.(type) {
+				case *ast.FuncLit:
+					return v, first
+				case *ast.Ident:
+					o = info.Uses[v]
+					if o == nil {
+						return nil, nil
+					}
+				default:
+					return nil, nil
+				}
+			}
+			return nil, nil
+		}
+		for _, f := range p.Root.Syntax {
+			ast.Inspect(f, func(n ast.Node) bool {
+				call, ok := n.(*ast.CallExpr)
+				if !ok {
+					return true
+				}
+				id, ok := call.Fun.(*ast.Ident)
+				if !ok {
+					return true
+				}
+				v, ok := info.Uses[id].(*types.Var)
+				if !ok || v.IsField() || v.Parent() == p.Types.Scope() {
+					return true
+				}
+				sig, ok := v.Type().Underlying().(*types.Signature)
+				if !ok || sig.Variadic() {
+					return true
+				}
+				lit, defStmt := resolveLit(v)
+				if lit == nil || enclosing[call] == nil || !(lit.Pos() >= enclosing[call].Pos() && lit.End() <= enclosing[call].End()) {
+					return true
+				}
+				if call.Pos() >= lit.Pos() && call.End() <= lit.End() {
+					return true // a recursive closure
+				}
+				// the literal must be free of what cannot be moved
+				bad := false
+				ast.Inspect(lit.Body, func(m ast.Node) bool {
+					switch x := m.(type) {
+					case *ast.DeferStmt, *ast.LabeledStmt, *ast.GoStmt:
+						bad = true
+					case *ast.BranchStmt:
+						if x.Tok == token.GOTO || x.Label != nil {
+							bad = true
+						}
+					case *ast.CallExpr:
+						if rid, ok := x.Fun.(*ast.Ident); ok && rid.Name == "recover" {
+							bad = true
+						}
+					}
+					return !bad
+				})
+				if bad {
+					return true
+				}
+				// how many calls of this variable are there? only a single call is expanded (a literal called in several
+				// places stays a closure)
+				nCalls := 0
+				ast.Inspect(enclosing[call], func(m ast.Node) bool {
+					if c2, ok := m.(*ast.CallExpr); ok {
+						if i2, ok := c2.Fun.(*ast.Ident); ok && info.Uses[i2] == types.Object(v) {
+							nCalls++
+						}
+					}
+					return true
+				})
+				if nCalls != 1 {
+					// a small literal may be expanded at a few calls
+					nst := 0
+					ast.Inspect(lit.Body, func(m ast.Node) bool {
+						if _, ok := m.(ast.Stmt); ok {
+							nst++
+						}
+						return true
+					})
+					if nCalls > 4 || nst > 8 {
+						return true
+					}
+				}
+				fd := &ast.FuncDecl{Name: ast.NewIdent(id.Name), Type: lit.Type, Body: lit.Body}
+				st := makeSite(nil, fd, sig, id.Name, id)
+				if st == nil {
+					return true
+				}
+				st.lit, st.litDef, st.litCalls = lit, defStmt, nCalls
+				sites = append(sites, st)
+				return true
+			})
+		}
+	}
+	sort.Slice(sites, func(i, j int) bool {
+		if a, b := sites[i].name, sites[j].name; a != b {
+			return a < b
+		}
+		return sites[i].call.Pos() < sites[j].call.Pos()
+	})
 	// one layer per round: a helper whose body holds another site of this round waits
 	inBody := func(fd *ast.FuncDecl, n ast.Node) bool { return n.Pos() >= fd.Pos() && n.End() <= fd.End() }
 	var chosen []*inlineSite
@@ -311,22 +964,11 @@ func inlineRound(p *Prog, overlay map[string][]byte, protected map[string]bool, 
 	var names []string
 	usedStmt := map[ast.Node]bool{}
 	counter := round * 1000
+	doneSites := map[*types.Func]int{}
+	keptAlive := map[ast.Stmt]bool{}
+	var expanded []*inlineSite
 	for _, s := range chosen {
-		anchorStmt := ast.Node(s.stmt)
-		if s.ifStmt != nil {
-			anchorStmt = s.ifStmt
-		}
-		if usedStmt[anchorStmt] {
-			continue
-		}
-		// an enclosing statement of another chosen site? (edits inside the callee text being moved)
-		conflict := false
-		for _, t := range chosen {
-			if t != s && inBody(s.callee, t.call) {
-				conflict = true
-			}
-		}
-		if conflict {
+		if usedStmt[s.host] || s.thread != nil && usedStmt[s.thread.ifStmt] {
 			continue
 		}
 		counter++
@@ -334,28 +976,79 @@ func inlineRound(p *Prog, overlay map[string][]byte, protected map[string]bool, 
 		es, why := buildInline(s, pre, info, p.Types, text, lineOf, off)
 		if why != "" {
 			if os.Getenv("FCHECK_DEBUG") != "" {
-				fmt.Printf("inlining: %s not expanded: %s\n", funcObjKey(s.obj), why)
+				fmt.Printf("inlining: %s not expanded: %s\n", s.name, why)
 			}
 			continue
 		}
-		usedStmt[anchorStmt] = true
+		usedStmt[s.host] = true
+		if s.thread != nil {
+			usedStmt[s.thread.ifStmt] = true
+		}
 		for f, e := range es {
 			edits[f] = append(edits[f], e...)
 		}
-		// blank the helper (line count preserved)
-		start := s.callee.Pos()
-		if s.callee.Doc != nil {
-			start = s.callee.Doc.Pos()
+		if s.obj != nil {
+			doneSites[s.obj]++
+		} else if s.litDef != nil && !keptAlive[s.litDef] {
+			keptAlive[s.litDef] = true
+			at := off(s.litDef.End())
+			edits[s.file] = append(edits[s.file], textEdit{at, at, "; _ = " + s.name})
 		}
-		edits[s.calleeF] = append(edits[s.calleeF], textEdit{off(start), off(s.callee.End()), keepNewlines(read(s.calleeF)[off(start):off(s.callee.End())])})
-		names = append(names, funcObjKey(s.obj)+" into "+s.encl.Name.Name)
+		expanded = append(expanded, s)
+		names = append(names, s.name+" into "+s.encl.Name.Name)
+	}
+	// a literal all of whose calls were expanded is dead: its body goes (so that no rule reads it as live code)
+	litDone := map[*ast.FuncLit]int{}
+	litTotal := map[*ast.FuncLit]int{}
+	for _, s := range chosen {
+		if s.lit != nil && usedStmt[s.host] {
+			litTotal[s.lit] = s.litCalls
+		}
+	}
+	for _, nm := range names {
+		_ = nm
+	}
+	for _, s := range expanded {
+		if s.lit != nil {
+			litDone[s.lit]++
+		}
+	}
+	for lit, n := range litDone {
+		if n != litTotal[lit] {
+			continue
+		}
+		nested := false
+		for _, t := range expanded {
+			if t.lit != lit && t.call.Pos() >= lit.Pos() && t.call.End() <= lit.End() {
+				nested = true
+			}
+		}
+		if nested {
+			continue
+		}
+		f := fileOf(lit.Pos())
+		body := read(f)[off(lit.Body.Lbrace) : off(lit.Body.Rbrace)+1]
+		edits[f] = append(edits[f], textEdit{off(lit.Body.Lbrace), off(lit.Body.Rbrace) + 1, "{ panic(\"expanded at its call sites\")" + keepNewlines(body) + "}"})
+	}
+	// a helper all of whose references were expanded is blanked (line count preserved)
+	for o, n := range doneSites {
+		if n != len(uses[o]) {
+			continue
+		}
+		fd := decls[o]
+		start := fd.Pos()
+		if fd.Doc != nil {
+			start = fd.Doc.Pos()
+		}
+		f := fileOf(fd.Pos())
+		edits[f] = append(edits[f], textEdit{off(start), off(fd.End()), keepNewlines(read(f)[off(start):off(fd.End())])})
 	}
 	out := map[string][]byte{}
 	for f, es := range edits {
 		// reject overlapping edits
 		sort.Slice(es, func(i, j int) bool { return es[i].start < es[j].start })
 		for i := 1; i < len(es); i++ {
-			if es[i].start < es[i-1].end {
+			if es[i].start < es[i-1].end || es[i].start == es[i-1].start {
 				if os.Getenv("FCHECK_DEBUG") != "" {
 					fmt.Println("inlining: overlapping edits in", f)
 				}
@@ -364,13 +1057,14 @@ func inlineRound(p *Prog, overlay map[string][]byte, protected map[string]bool, 
 		}
 		out[f] = applyEdits(read(f), es)
 	}
+	sort.Strings(names)
 	return out, names
 }
 
 // buildInline produces the text edits for one site.
 func buildInline(s *inlineSite, pre string, info *types.Info, pkg *types.Package, text func(a, b token.Pos) string, lineOf func(token.Pos) (string, int), off func(token.Pos) int) (map[string][]textEdit, string) {
 	fd := s.callee
-	sig := s.obj.Type().(*types.Signature)
+	sig := s.sig
 	// ---- name hygiene: package-level / imported / predeclared names used by the helper mean the same at the call site
 	inner := pkg.Scope().Innermost(s.call.Pos())
 	if inner == nil {
@@ -405,6 +1099,9 @@ func buildInline(s *inlineSite, pre string, info *types.Info, pkg *types.Package
 				if _, isPkg := o.(*types.PkgName); isPkg {
 					outer = true
 				}
+				if s.lit != nil && o.Pos().IsValid() && !(o.Pos() >= s.lit.Pos() && o.Pos() < s.lit.End()) {
+					outer = true // captured from the enclosing function
+				}
 				if !outer {
 					return true
 				}
@@ -435,16 +1132,84 @@ func buildInline(s *inlineSite, pre string, info *types.Info, pkg *types.Package
 	if bad != "" {
 		return nil, bad
 	}
+	// type parameters of a generic helper stand for the type arguments of this call
+	subst := func(root ast.Node, a, b token.Pos) string {
+		if len(s.targs) == 0 {
+			return text(a, b)
+		}
+		var es []textEdit
+		base := off(a)
+		ast.Inspect(root, func(n ast.Node) bool {
+			if id, ok := n.(*ast.Ident); ok && id.Pos() >= a && id.End() <= b {
+				if tn, ok := info.Uses[id].(*types.TypeName); ok {
+					if _, isTP := tn.Type().(*types.TypeParam); isTP {
+						if t, ok := s.targs[id.Name]; ok {
+							es = append(es, textEdit{off(id.Pos()) - base, off(id.End()) - base, t})
+						}
+					}
+				}
+			}
+			return true
+		})
+		return string(applyEdits([]byte(text(a, b)), es))
+	}
+	typeText := func(e ast.Expr) string { return subst(e, e.Pos(), e.End()) }
 	// ---- parameters
 	type bind struct{ name, typ, arg string }
 	var binds []bind
+	// a parameter that receives the caller's variable of the same name and is never written in the body needs no
+	// binding: the caller's variable serves (and closures that captured it keep meaning the same thing)
+	sameNameArg := func(nm *ast.Ident, arg ast.Expr) bool {
+		id, ok := arg.(*ast.Ident)
+		if !ok || nm == nil || id.Name != nm.Name || nm.Name == "_" {
+			return false
+		}
+		if v, isVar := info.Uses[id].(*types.Var); !isVar || v.IsField() || v.Parent() == pkg.Scope() {
+			return false
+		}
+		po := info.Defs[nm]
+		if po == nil {
+			return false
+		}
+		written := false
+		ast.Inspect(fd.Body, func(n ast.Node) bool {
+			switch x := n.(type) {
+			case *ast.AssignStmt:
+				for _, l := range x.Lhs {
+					if lid, ok := l.(*ast.Ident); ok && info.Uses[lid] == po {
+						written = true
+					}
+				}
+			case *ast.IncDecStmt:
+				if lid, ok := x.X.(*ast.Ident); ok && info.Uses[lid] == po {
+					written = true
+				}
+			case *ast.UnaryExpr:
+				if lid, ok := x.X.(*ast.Ident); ok && x.Op == token.AND && info.Uses[lid] == po {
+					written = true
+				}
+			case *ast.RangeStmt:
+				for _, e := range []ast.Expr{x.Key, x.Value} {
+					if lid, ok := e.(*ast.Ident); ok && info.Uses[lid] == po {
+						written = true
+					}
+				}
+			}
+			return true
+		})
+		return !written
+	}
 	if fd.Recv != nil && len(fd.Recv.List) == 1 {
 		rf := fd.Recv.List[0]
 		name := "_"
 		if len(rf.Names) == 1 {
 			name = rf.Names[0].Name
 		}
-		sel := s.call.Fun.(*ast.SelectorExpr)
+		fun := s.call.Fun
+		if pe, ok := fun.(*ast.ParenExpr); ok {
+			fun = pe.X
+		}
+		sel := fun.(*ast.SelectorExpr)
 		arg := text(sel.X.Pos(), sel.X.End())
 		xt := info.TypeOf(sel.X)
 		_, recvPtr := sig.Recv().Type().(*types.Pointer)
@@ -458,11 +1223,110 @@ func buildInline(s *inlineSite, pre string, info *types.Info, pkg *types.Package
 		case !recvPtr && argPtr:
 			arg = "*(" + arg + ")"
 		}
-		binds = append(binds, bind{name, text(rf.Type.Pos(), rf.Type.End()), arg})
+		var rn *ast.Ident
+		if len(rf.Names) == 1 {
+			rn = rf.Names[0]
+		}
+		if !(arg == text(sel.X.Pos(), sel.X.End()) && sameNameArg(rn, sel.X)) {
+			binds = append(binds, bind{name, typeText(rf.Type), arg})
+		}
+	}
+	// a pointer parameter that receives `&x` and is only ever dereferenced stands for x itself: `*p` becomes `x` and
+	// nothing is bound (the variable keeps being a plain local, which the SSA form lifts)
+	derefOf := map[types.Object]string{}
+	derefStars := map[*ast.StarExpr]string{}
+	{
+		bodyParent := map[ast.Node]ast.Node{}
+		var stack []ast.Node
+		ast.Inspect(fd.Body, func(n ast.Node) bool {
+			if n == nil {
+				stack = stack[:len(stack)-1]
+				return true
+			}
+			if len(stack) > 0 {
+				bodyParent[n] = stack[len(stack)-1]
+			}
+			stack = append(stack, n)
+			return true
+		})
+		declared := map[string]bool{}
+		for id, o := range info.Defs {
+			if o != nil && id.Pos() >= fd.Pos() && id.End() <= fd.End() {
+				declared[id.Name] = true
+			}
+		}
+		k := 0
+		for _, f := range fd.Type.Params.List {
+			names := f.Names
+			if len(names) == 0 {
+				k++
+				continue
+			}
+			for _, nm := range names {
+				idx := k
+				k++
+				if _, isPtr := f.Type.(*ast.StarExpr); !isPtr || idx >= len(s.call.Args) {
+					continue
+				}
+				ue, ok := s.call.Args[idx].(*ast.UnaryExpr)
+				if !ok || ue.Op != token.AND {
+					continue
+				}
+				x, ok := ue.X.(*ast.Ident)
+				if !ok {
+					continue
+				}
+				if v, isVar := info.Uses[x].(*types.Var); !isVar || v.IsField() {
+					continue
+				}
+				po := info.Defs[nm]
+				if po == nil {
+					continue
+				}
+				// every use of the parameter is `*p`
+				okAll := true
+				var stars []*ast.StarExpr
+				ast.Inspect(fd.Body, func(n ast.Node) bool {
+					id, isID := n.(*ast.Ident)
+					if !isID || info.Uses[id] != po {
+						return true
+					}
+					par := bodyParent[id]
+					if pe, isP := par.(*ast.ParenExpr); isP {
+						par = bodyParent[pe]
+					}
+					st, isStar := par.(*ast.StarExpr)
+					if !isStar {
+						okAll = false
+						return true
+					}
+					stars = append(stars, st)
+					return true
+				})
+				// the outer name must mean the outer variable inside the body: not declared there (the parameter's own
+				// name aside, which is no longer bound)
+				if !okAll || (declared[x.Name] && x.Name != nm.Name) {
+					continue
+				}
+				n := 0
+				for id2, o2 := range info.Defs {
+					if o2 != nil && id2.Name == x.Name && id2.Pos() >= fd.Pos() && id2.End() <= fd.End() {
+						n++
+					}
+				}
+				if x.Name == nm.Name && n != 1 {
+					continue
+				}
+				derefOf[po] = x.Name
+				for _, st := range stars {
+					derefStars[st] = x.Name
+				}
+			}
+		}
 	}
 	ai := 0
 	for _, f := range fd.Type.Params.List {
-		typ := text(f.Type.Pos(), f.Type.End())
+		typ := typeText(f.Type)
 		if len(f.Names) == 0 {
 			if ai >= len(s.call.Args) {
 				return nil, "argument count"
@@ -474,6 +1338,14 @@ func buildInline(s *inlineSite, pre string, info *types.Info, pkg *types.Package
 		for _, n := range f.Names {
 			if ai >= len(s.call.Args) {
 				return nil, "argument count"
+			}
+			if _, gone := derefOf[info.Defs[n]]; gone {
+				ai++
+				continue
+			}
+			if sameNameArg(n, s.call.Args[ai]) {
+				ai++
+				continue
 			}
 			binds = append(binds, bind{n.Name, typ, text(s.call.Args[ai].Pos(), s.call.Args[ai].End())})
 			ai++
@@ -488,7 +1360,7 @@ func buildInline(s *inlineSite, pre string, info *types.Info, pkg *types.Package
 	named := false
 	if fd.Type.Results != nil {
 		for _, f := range fd.Type.Results.List {
-			typ := text(f.Type.Pos(), f.Type.End())
+			typ := typeText(f.Type)
 			if len(f.Names) == 0 {
 				results = append(results, res{"", typ})
 				continue
@@ -519,6 +1391,21 @@ func buildInline(s *inlineSite, pre string, info *types.Info, pkg *types.Package
 		})
 	}
 	walk(fd.Body)
+	calleeParent := map[ast.Node]ast.Node{}
+	{
+		var stack []ast.Node
+		ast.Inspect(fd.Body, func(n ast.Node) bool {
+			if n == nil {
+				stack = stack[:len(stack)-1]
+				return true
+			}
+			if len(stack) > 0 {
+				calleeParent[n] = stack[len(stack)-1]
+			}
+			stack = append(stack, n)
+			return true
+		})
+	}
 	var last ast.Stmt
 	if n := len(fd.Body.List); n > 0 {
 		last = fd.Body.List[n-1]
@@ -530,8 +1417,181 @@ func buildInline(s *inlineSite, pre string, info *types.Info, pkg *types.Package
 	for _, r := range results {
 		resNames = append(resNames, r.name)
 	}
+	// threaded returns (see threadInfo)
+	lOK, lFail, lChk, lEnd := pre+"_ok", pre+"_then", pre+"_chk", pre+"_end"
+	useOK, useFail, useChk := false, false, false
+	classify := func(r *ast.ReturnStmt) string {
+		th := s.thread
+		if th == nil || len(r.Results) != len(results) {
+			return "unknown"
+		}
+		e := r.Results[th.k]
+		for {
+			pe, ok := e.(*ast.ParenExpr)
+			if !ok {
+				break
+			}
+			e = pe.X
+		}
+		val := "" // "nil" | "nonnil" | "true" | "false"
+		if th.field != "" {
+			cl, ok := e.(*ast.CompositeLit)
+			if !ok {
+				return "unknown"
+			}
+			st, ok := info.TypeOf(cl).Underlying().(*types.Struct)
+			if !ok {
+				return "unknown"
+			}
+			fi := -1
+			for i := 0; i < st.NumFields(); i++ {
+				if st.Field(i).Name() == th.field {
+					fi = i
+				}
+			}
+			var el ast.Expr
+			keyed := false
+			for i, x := range cl.Elts {
+				if kv, ok := x.(*ast.KeyValueExpr); ok {
+					keyed = true
+					if k, ok := kv.Key.(*ast.Ident); ok && k.Name == th.field {
+						el = kv.Value
+					}
+				} else if i == fi {
+					el = x
+				}
+			}
+			if el == nil {
+				if !keyed && len(cl.Elts) != 0 || fi < 0 {
+					return "unknown"
+				}
+				// the field is left at its zero value
+				switch t := st.Field(fi).Type().Underlying().(type) {
+				case *types.Basic:
+					if t.Kind() == types.Bool {
+						val = "false"
+					}
+				case *types.Pointer, *types.Interface, *types.Slice, *types.Map, *types.Signature:
+					val = "nil"
+				}
+				if val == "" {
+					return "unknown"
+				}
+				e = nil
+			} else {
+				e = el
+			}
+		}
+		switch x := e.(type) {
+		case *ast.Ident:
+			switch info.Uses[x] {
+			case types.Universe.Lookup("nil"):
+				val = "nil"
+			case types.Universe.Lookup("true"):
+				val = "true"
+			case types.Universe.Lookup("false"):
+				val = "false"
+			default:
+				// a value just tested: the return sits in the then-branch of `if x != nil` / `if x == nil` and x is
+				// not assigned in that branch
+				obj := info.Uses[x]
+				var up ast.Node = r
+				for up != nil && up != ast.Node(fd.Body) && val == "" {
+					par := calleeParent[up]
+					if ifs, ok := par.(*ast.IfStmt); ok && ifs.Body == up {
+						if be, ok := ifs.Cond.(*ast.BinaryExpr); ok {
+							id, ok1 := be.X.(*ast.Ident)
+							nl, ok2 := be.Y.(*ast.Ident)
+							if ok1 && ok2 && info.Uses[id] == obj && obj != nil && info.Uses[nl] == types.Universe.Lookup("nil") {
+								assigned := false
+								ast.Inspect(ifs.Body, func(m ast.Node) bool {
+									if as, ok := m.(*ast.AssignStmt); ok {
+										for _, l := range as.Lhs {
+											if lid, ok := l.(*ast.Ident); ok && (info.Uses[lid] == obj || info.Defs[lid] == obj) {
+												assigned = true
+											}
+										}
+									}
+									if ue, ok := m.(*ast.UnaryExpr); ok && ue.Op == token.AND {
+										if lid, ok := ue.X.(*ast.Ident); ok && info.Uses[lid] == obj {
+											assigned = true
+										}
+									}
+									return true
+								})
+								if !assigned {
+									if be.Op == token.NEQ {
+										val = "nonnil"
+									} else if be.Op == token.EQL {
+										val = "nil"
+									}
+								}
+							}
+						}
+					}
+					up = par
+				}
+			}
+		case *ast.CallExpr:
+			if sel, ok := x.Fun.(*ast.SelectorExpr); ok {
+				if pk, ok := sel.X.(*ast.Ident); ok {
+					if pn, ok := info.Uses[pk].(*types.PkgName); ok {
+						switch pn.Imported().Path() + "." + sel.Sel.Name {
+						case "errors.New", "fmt.Errorf":
+							val = "nonnil"
+						}
+					}
+				}
+			}
+		case *ast.UnaryExpr:
+			if _, isLit := x.X.(*ast.CompositeLit); isLit && x.Op == token.AND {
+				val = "nonnil"
+			}
+		}
+		then := ""
+		switch th.cond {
+		case "neqnil":
+			then = map[string]string{"nonnil": "then", "nil": "skip"}[val]
+		case "eqnil":
+			then = map[string]string{"nonnil": "skip", "nil": "then"}[val]
+		case "true":
+			then = map[string]string{"true": "then", "false": "skip"}[val]
+		case "false":
+			then = map[string]string{"true": "skip", "false": "then"}[val]
+		}
+		if then == "" {
+			return "unknown"
+		}
+		return then
+	}
 	for _, r := range rets {
 		var repl string
+		if s.thread != nil && !s.tail {
+			var assign string
+			switch {
+			case len(r.Results) == 0:
+				assign = strings.Join(tmps, ", ") + " = " + strings.Join(resNames, ", ")
+			default:
+				var rs []string
+				for _, e := range r.Results {
+					rs = append(rs, text(e.Pos(), e.End()))
+				}
+				assign = strings.Join(tmps, ", ") + " = " + strings.Join(rs, ", ")
+			}
+			switch classify(r) {
+			case "then":
+				useFail = true
+				repl = assign + "; goto " + lFail
+			case "skip":
+				useOK = true
+				repl = assign + "; goto " + lOK
+			default:
+				useChk = true
+				repl = assign + "; goto " + lChk
+			}
+			bodyEdits = append(bodyEdits, textEdit{off(r.Pos()) - base, off(r.End()) - base, repl})
+			continue
+		}
 		if s.tail {
 			if len(r.Results) == 0 && named {
 				repl = "return " + strings.Join(resNames, ", ")
@@ -565,16 +1625,66 @@ func buildInline(s *inlineSite, pre string, info *types.Info, pkg *types.Package
 		}
 		bodyEdits = append(bodyEdits, textEdit{off(r.Pos()) - base, off(r.End()) - base, repl})
 	}
+	for st, name := range derefStars {
+		inRet := false
+		for _, e := range bodyEdits {
+			if off(st.Pos())-base >= e.start && off(st.End())-base <= e.end {
+				inRet = true
+			}
+		}
+		if inRet {
+			return nil, "a dereferenced pointer parameter inside a return statement"
+		}
+		bodyEdits = append(bodyEdits, textEdit{off(st.Pos()) - base, off(st.End()) - base, name})
+	}
+	if len(s.targs) > 0 {
+		inRet := func(id *ast.Ident) bool {
+			for _, e := range bodyEdits {
+				if off(id.Pos())-base >= e.start && off(id.End())-base <= e.end {
+					return true
+				}
+			}
+			return false
+		}
+		var retFix []struct {
+			i    int
+			text string
+		}
+		_ = retFix
+		ast.Inspect(fd.Body, func(n ast.Node) bool {
+			id, ok := n.(*ast.Ident)
+			if !ok {
+				return true
+			}
+			tn, ok := info.Uses[id].(*types.TypeName)
+			if !ok {
+				return true
+			}
+			if _, isTP := tn.Type().(*types.TypeParam); !isTP {
+				return true
+			}
+			t, ok := s.targs[id.Name]
+			if !ok {
+				return true
+			}
+			if inRet(id) {
+				bad = "a type parameter inside a return statement"
+				return true
+			}
+			bodyEdits = append(bodyEdits, textEdit{off(id.Pos()) - base, off(id.End()) - base, t})
+			return true
+		})
+		if bad != "" {
+			return nil, bad
+		}
+	}
 	bodyText := []byte(text(fd.Body.Lbrace+1, fd.Body.Rbrace))
 	sort.Slice(bodyEdits, func(i, j int) bool { return bodyEdits[i].start < bodyEdits[j].start })
 	bodyText = applyEdits(bodyText, bodyEdits)
 
 	var b bytes.Buffer
 	cf, cl := lineOf(fd.Body.Lbrace)
-	sf, sl := lineOf(s.stmt.Pos())
-	if s.ifStmt != nil {
-		sf, sl = lineOf(s.ifStmt.Pos())
-	}
+	sf, sl := lineOf(s.host.Pos())
 	open := func() {
 		b.WriteString("{\n")
 		for i, bd := range binds {
@@ -598,20 +1708,6 @@ func buildInline(s *inlineSite, pre string, info *types.Info, pkg *types.Package
 		b.Write(bodyText)
 		b.WriteString("\n")
 	}
-	out := map[string][]textEdit{}
-	if s.tail {
-		if named {
-			for _, r := range results {
-				if r.name == "_" {
-					return nil, "blank named result"
-				}
-			}
-		}
-		open()
-		fmt.Fprintf(&b, "//line %s:%d\n}", sf, sl)
-		out[s.file] = append(out[s.file], textEdit{off(s.stmt.Pos()), off(s.stmt.End()), b.String()})
-		return out, ""
-	}
 	if named {
 		for _, r := range results {
 			if r.name == "_" {
@@ -619,7 +1715,121 @@ func buildInline(s *inlineSite, pre string, info *types.Info, pkg *types.Package
 			}
 		}
 	}
-	if s.ifStmt != nil {
+	out := map[string][]textEdit{}
+	if s.deferred {
+		// arguments are evaluated now, the body runs as the deferred function
+		var d bytes.Buffer
+		for i, bd := range binds {
+			fmt.Fprintf(&d, "var %s_a%d %s = %s\n", pre, i, bd.typ, bd.arg)
+		}
+		d.WriteString("defer func() {\n")
+		for i, bd := range binds {
+			if bd.name == "_" {
+				fmt.Fprintf(&d, "_ = %s_a%d\n", pre, i)
+				continue
+			}
+			fmt.Fprintf(&d, "var %s %s = %s_a%d; _ = %s\n", bd.name, bd.typ, pre, i, bd.name)
+		}
+		fmt.Fprintf(&d, "//line %s:%d\n", cf, cl)
+		d.WriteString(text(fd.Body.Lbrace+1, fd.Body.Rbrace))
+		fmt.Fprintf(&d, "\n//line %s:%d\n}()", sf, sl)
+		if len(derefStars) > 0 {
+			// the dereferenced parameters stand for the caller's variables: substitute in the body text
+			var es []textEdit
+			for st, name := range derefStars {
+				es = append(es, textEdit{off(st.Pos()) - base, off(st.End()) - base, name})
+			}
+			bt := applyEdits([]byte(text(fd.Body.Lbrace+1, fd.Body.Rbrace)), es)
+			d.Reset()
+			for i, bd := range binds {
+				fmt.Fprintf(&d, "var %s_a%d %s = %s\n", pre, i, bd.typ, bd.arg)
+			}
+			d.WriteString("defer func() {\n")
+			for i, bd := range binds {
+				if bd.name == "_" {
+					fmt.Fprintf(&d, "_ = %s_a%d\n", pre, i)
+					continue
+				}
+				fmt.Fprintf(&d, "var %s %s = %s_a%d; _ = %s\n", bd.name, bd.typ, pre, i, bd.name)
+			}
+			fmt.Fprintf(&d, "//line %s:%d\n", cf, cl)
+			d.Write(bt)
+			fmt.Fprintf(&d, "\n//line %s:%d\n}()", sf, sl)
+		}
+		out[s.file] = append(out[s.file], textEdit{off(s.host.Pos()), off(s.host.End()), d.String()})
+		return out, ""
+	}
+	if s.tail {
+		open()
+		fmt.Fprintf(&b, "//line %s:%d\n}", sf, sl)
+		out[s.file] = append(out[s.file], textEdit{off(s.host.Pos()), off(s.host.End()), b.String()})
+		return out, ""
+	}
+	if th := s.thread; th != nil {
+		// the helper's named results / bare returns are handled by the assignment text; pads follow the block
+		b.WriteString("{\n") // everything in a block of its own only for form B (the if's variables are its own)
+		if !th.formB {
+			b.Reset()
+		}
+		for i, r := range results {
+			fmt.Fprintf(&b, "var %s %s\n", tmps[i], r.typ)
+		}
+		for _, d := range th.decl {
+			b.WriteString(d + "\n")
+		}
+		open()
+		b.WriteString("}\n")
+		set := ""
+		condText := text(th.ifStmt.Cond.Pos(), th.ifStmt.Cond.End())
+		if th.formC {
+			set = "_ = " + tmps[0]
+			condText = text(th.ifStmt.Cond.Pos(), s.call.Pos()) + tmps[0] + text(s.call.End(), th.ifStmt.Cond.End())
+		} else {
+			set = strings.Join(th.lhs, ", ") + " = " + strings.Join(tmps, ", ")
+			for _, l := range th.assign.Lhs {
+				if id, ok := l.(*ast.Ident); ok && id.Name != "_" {
+					set += "; _ = " + id.Name // the caller's test of it may be gone on this path
+				}
+			}
+		}
+		thenBody := text(th.ifStmt.Body.Lbrace+1, th.ifStmt.Body.Rbrace)
+		endsInReturn := false
+		if n := len(th.ifStmt.Body.List); n > 0 {
+			_, endsInReturn = th.ifStmt.Body.List[n-1].(*ast.ReturnStmt)
+		}
+		isf, isl := lineOf(th.ifStmt.Pos())
+		useEnd := false
+		if useChk {
+			fmt.Fprintf(&b, "%s:\n%s\n//line %s:%d\nif %s %s\n", lChk, set, isf, isl, condText, text(th.ifStmt.Body.Lbrace, th.ifStmt.Body.Rbrace+1))
+			if useFail || useOK {
+				fmt.Fprintf(&b, "goto %s\n", lEnd)
+				useEnd = true
+			}
+		}
+		if useFail {
+			fmt.Fprintf(&b, "%s:\n%s\n//line %s:%d\n{%s}\n", lFail, set, isf, isl, thenBody)
+			if !endsInReturn && useOK {
+				fmt.Fprintf(&b, "goto %s\n", lEnd)
+				useEnd = true
+			}
+		}
+		if useOK {
+			fmt.Fprintf(&b, "%s:\n%s\n", lOK, set)
+		}
+		if useEnd {
+			fmt.Fprintf(&b, "%s:\n;\n", lEnd)
+		}
+		if th.formB {
+			b.WriteString("}")
+		}
+		el, _ := 0, 0
+		_ = el
+		ef, eln := lineOf(th.ifStmt.End())
+		fmt.Fprintf(&b, "\n//line %s:%d\n", ef, eln)
+		out[s.file] = append(out[s.file], textEdit{off(s.host.Pos()), off(th.ifStmt.End()), b.String()})
+		return out, ""
+	}
+	if s.wrap {
 		b.WriteString("{\n")
 	}
 	for i, r := range results {
@@ -631,182 +1841,127 @@ func buildInline(s *inlineSite, pre string, info *types.Info, pkg *types.Package
 		fmt.Fprintf(&b, "%s:\n", label)
 	}
 	fmt.Fprintf(&b, "//line %s:%d\n", sf, sl)
-	insertAt := s.stmt.Pos()
-	if s.ifStmt != nil {
-		insertAt = s.ifStmt.Pos()
-	}
-	// the call itself becomes the list of temporaries
 	callRepl := strings.Join(tmps, ", ")
-	if _, isExpr := s.stmt.(*ast.ExprStmt); isExpr {
-		if len(tmps) == 0 {
-			callRepl = ""
-			// `g()` alone: the statement disappears; a label needs a statement to stand on
-			out[s.file] = append(out[s.file], textEdit{off(insertAt), off(s.stmt.End()), b.String() + ";"})
-			return out, ""
+	if s.whole {
+		// `g(..)` alone: the statement becomes the expansion (a label needs a statement to stand on)
+		rest := ";"
+		if len(tmps) > 0 {
+			var us []string
+			for range tmps {
+				us = append(us, "_")
+			}
+			rest = strings.Join(us, ", ") + " = " + callRepl
 		}
-		var us []string
-		for range tmps {
-			us = append(us, "_")
-		}
-		out[s.file] = append(out[s.file], textEdit{off(insertAt), off(s.stmt.End()), b.String() + strings.Join(us, ", ") + " = " + callRepl})
+		out[s.file] = append(out[s.file], textEdit{off(s.host.Pos()), off(s.host.End()), b.String() + rest})
 		return out, ""
-	} else if len(tmps) == 0 {
+	}
+	if len(tmps) == 0 {
 		return nil, "a call without results used as a value"
 	}
-	out[s.file] = append(out[s.file], textEdit{off(insertAt), off(insertAt), b.String()})
-	out[s.file] = append(out[s.file], textEdit{off(s.call.Pos()), off(s.call.End()), callRepl})
-	if s.ifStmt != nil {
-		out[s.file] = append(out[s.file], textEdit{off(s.ifStmt.End()), off(s.ifStmt.End()), "\n}"})
+	if off(s.host.Pos()) == off(s.call.Pos()) {
+		out[s.file] = append(out[s.file], textEdit{off(s.call.Pos()), off(s.call.End()), b.String() + callRepl})
+	} else {
+		out[s.file] = append(out[s.file], textEdit{off(s.host.Pos()), off(s.host.Pos()), b.String()})
+		out[s.file] = append(out[s.file], textEdit{off(s.call.Pos()), off(s.call.End()), callRepl})
+	}
+	if s.wrap {
+		out[s.file] = append(out[s.file], textEdit{off(s.host.End()), off(s.host.End()), "\n}"})
 	}
 	return out, ""
 }
 
 
-// protectedKeys: the functions the rules recognise as anchors in program c.P - by name, by role discovery, by
-// registration, by shape. They are never expanded: the rules need them where they are.
-func (c *Ctx) protectedKeys() map[string]bool {
-	out := map[string]bool{}
-	add := func(f *ssa.Function) {
-		for f != nil && f.Parent() != nil {
-			f = f.Parent()
-		}
-		if f == nil {
-			return
-		}
-		if o := f.Origin(); o != nil {
-			f = o
-		}
-		if fo, ok := f.Object().(*types.Func); ok {
-			out[funcObjKey(fo)] = true
-		}
+var pinnedViewCache = map[*Prog]map[string]bool{}
+
+// pinnedView: the names that count as functions of the pinned tree in program p: the pinned names themselves, and a
+// function that is not among them but has exactly the signature of a pinned function whose name is gone (a rename).
+func pinnedView(p *Prog) map[string]bool {
+	if m, ok := pinnedViewCache[p]; ok {
+		return m
 	}
-	safely := func(g func()) {
-		defer func() { recover() }()
-		g()
-	}
-	// anchors the rules look up by (historical) name; exported ones are never expanded anyway
-	for _, n := range []string{"convToBasicNumber", "newDecimalBig"} {
-		add(c.fn(n))
-	}
-	for _, m := range [][2]string{{"Parser", "errorAtPosition"}, {"Parser", "getBinaryOperatorPrecedence"}, {"Scanner", "getIdentifierToken"}} {
-		add(c.method(m[0], m[1]))
-	}
-	safely(func() {
-		ro := c.Roles()
-		v := reflect.ValueOf(ro).Elem()
-		for i := 0; i < v.NumField(); i++ {
-			if f, ok := v.Field(i).Interface().(*ssa.Function); ok {
-				add(f)
-			}
-		}
-	})
-	for _, get := range []func() *Dispatcher{c.EvalDispatcher, c.RefDispatcher} {
-		get := get
-		safely(func() {
-			d := get()
-			if d == nil {
-				return
-			}
-			add(d.Fn)
-			// what the dispatcher itself calls: the handlers and the normaliser every result passes through
-			instrs(d.Fn, func(b *ssa.BasicBlock, i int, in ssa.Instruction) {
-				if call, ok := in.(ssa.CallInstruction); ok {
-					if cal := calleeOf(call); cal != nil && c.inModule(cal) {
-						add(cal)
-					}
+	m := map[string]bool{}
+	present := map[string]*types.Func{}
+	for _, f := range p.Root.Syntax {
+		for _, d := range f.Decls {
+			if fd, ok := d.(*ast.FuncDecl); ok {
+				if o, ok := p.Root.TypesInfo.Defs[fd.Name].(*types.Func); ok {
+					present[funcObjKey(o)] = o
 				}
-			})
-			for _, h := range d.Handlers {
-				add(h)
-				// what a handler dispatches to by token
-				safely(func() {
-					for _, arm := range c.tokenDispatch(h) {
-						add(arm.Handler)
-					}
-				})
 			}
-		})
+		}
 	}
-	safely(func() {
-		if d := c.EvalDispatcher(); d != nil {
-			add(c.memberReader(d))
+	missing := map[string]int{}
+	for k, sg := range pinnedSigs {
+		if _, ok := present[k]; ok {
+			m[k] = true
+		} else {
+			missing[sg]++
 		}
-	})
-	safely(func() {
-		_, es, _ := c.Registry()
-		for _, e := range es {
-			add(e.Fn)
-		}
-	})
-	safely(func() {
-		ns := c.numberScanners()
-		add(ns.Num)
-		add(ns.Frag)
-	})
-	safely(func() {
-		f, _, _, _ := c.stringScanner()
-		add(f)
-	})
-	safely(func() {
-		for f := range c.scannerDiagFns() {
-			add(f)
-		}
-	})
-	// the speculation family: the scanner's look-ahead helper (runs a callback, then puts the scanner state back) and
-	// every function that takes a callback and reaches it (lookAhead, tryParse and their shared worker)
-	var spec []*ssa.Function
-	for _, f := range c.P.ModFuncs {
-		if len(f.Blocks) == 0 || len(f.Params) == 0 || typeName(f.Params[0].Type()) != "Scanner" {
+	}
+	var keys []string
+	for k := range present {
+		keys = append(keys, k)
+	}
+	sort.Strings(keys)
+	for _, k := range keys {
+		if m[k] {
 			continue
 		}
-		instrs(f, func(b *ssa.BasicBlock, i int, in ssa.Instruction) {
-			if call, ok := in.(*ssa.Call); ok && call.Call.StaticCallee() == nil && !call.Call.IsInvoke() {
-				if _, isParam := call.Call.Value.(*ssa.Parameter); isParam {
-					spec = append(spec, f)
-				}
-			}
-		})
+		if sg := sigKey(present[k]); missing[sg] > 0 {
+			missing[sg]--
+			m[k] = true
+		}
 	}
-	for _, f := range c.P.ModFuncs {
-		hasFn := false
-		for _, p := range f.Params {
-			if _, ok := p.Type().Underlying().(*types.Signature); ok {
-				hasFn = true
+	// methods of a renamed type: same method name, same parameters and results, on a receiver type whose pinned name
+	// is gone
+	stripRecv := func(sg string) string {
+		if strings.HasPrefix(sg, "(") {
+			if i := strings.Index(sg, ")("); i >= 0 {
+				return sg[i+1:]
 			}
 		}
-		if !hasFn {
+		return sg
+	}
+	typeGone := map[string]bool{}
+	missingMeth := map[string]int{}
+	for k, sg := range pinnedSigs {
+		if i := strings.Index(k, "."); i > 0 && !m[k] {
+			if p.Types.Scope().Lookup(k[:i]) == nil {
+				typeGone[k[:i]] = true
+				missingMeth[k[i+1:]+stripRecv(sg)]++
+			}
+		}
+	}
+	for _, k := range keys {
+		if m[k] {
 			continue
 		}
-		for _, g := range spec {
-			if f == g || c.reachesFn(f, g) {
-				add(f)
+		i := strings.Index(k, ".")
+		if i <= 0 || pinnedTypeNames()[k[:i]] {
+			continue
+		}
+		mk := k[i+1:] + stripRecv(sigKey(present[k]))
+		if missingMeth[mk] > 0 {
+			missingMeth[mk]--
+			m[k] = true
+		}
+	}
+	pinnedViewCache[p] = m
+	return m
+}
+
+
+var pinnedTypes map[string]bool
+
+// pinnedTypeNames: receiver type names that occur in the pinned tree.
+func pinnedTypeNames() map[string]bool {
+	if pinnedTypes == nil {
+		pinnedTypes = map[string]bool{}
+		for k := range pinnedSigs {
+			if i := strings.Index(k, "."); i > 0 {
+				pinnedTypes[k[:i]] = true
 			}
 		}
 	}
-	for _, f := range c.P.ModFuncs {
-		if peekKind(f) != "" {
-			add(f)
-		}
-		// helpers recognised by their shape: predicates on a reflect.Type, converters to a reflect.Type, type tests,
-		// clamp helpers, membership tests
-		sig := f.Signature
-		if sig.Recv() == nil && sig.Params().Len() >= 1 {
-			for i := 0; i < sig.Params().Len(); i++ {
-				if sig.Params().At(i).Type().String() == "reflect.Type" {
-					add(f)
-				}
-			}
-		}
-		// the spread expansion of the call bridge: (x) ([]interface{}, error)
-		if sig.Params().Len() == 1 && sig.Results().Len() == 2 && sig.Results().At(0).Type().String() == "[]interface{}" && isErrorType(sig.Results().At(1).Type()) {
-			add(f)
-		}
-		if typeTestHelper(f) != nil || c.minMaxHelper(f) != "" {
-			add(f)
-		}
-		if _, ok := c.membershipTable(f); ok {
-			add(f)
-		}
-	}
-	return out
+	return pinnedTypes
 }
